@@ -387,8 +387,38 @@ func runC15(c *ctx) {
 		cs.Style += i / len(cases)
 		c15Eval(c, cs)
 	})
+	// the bounds belong to the declaration, not to the variable's name: the same name with other bounds in the next message
+	decls := []struct {
+		text   string
+		lo, hi int
+	}{{"", 0, -1}, {"[2]", 2, 2}, {"[5..8]", 5, 8}, {"[..3]", 0, 3}, {"[4..]", 4, -1}, {"[0]", 0, 0}}
+	for _, d1 := range decls {
+		for _, d2 := range decls {
+			text := "S1F1 W H->E <L <A" + d1.text + " id> <U1 1>> .\nS1F3 W H->E <A" + d2.text + " id> ."
+			msgs, errs, _, o := smlParse(text)
+			c.NoteBulk(1, 1)
+			c.Class("same-name-other-bounds")
+			cs := c15Case{Op: "two-messages", Lo: d1.text, Hi: d2.text}
+			if o.Panicked || len(errs) > 0 || len(msgs) != 2 {
+				c.Violation("C15/two-messages-rejected", fmt.Sprintf("%q: %q %s", text, errs, o), cs)
+				continue
+			}
+			for i, d := range []struct {
+				text   string
+				lo, hi int
+			}{d1, d2} {
+				for l := 0; l <= 9; l++ {
+					of := real.Try(func() { msgs[i].FillVariables(map[string]interface{}{"id": strings.Repeat("z", l)}) })
+					acc := l >= d.lo && (d.hi == -1 || l <= d.hi)
+					if acc == of.Panicked {
+						c.Violation("C15/bounds-of-another-declaration-applied", fmt.Sprintf("message %d of %q declares %q; a fill of length %d: %s", i, text, d.text, l, of), cs)
+					}
+				}
+			}
+		}
+	}
 	c15Direct(c)
-	c.Required = []string{"literal/within", "literal/outside", "literal/form=n", "literal/form=a..b", "literal/form=a..", "literal/form=..b", "asciivar/fill-accepted", "asciivar/fill-refused", "asciivar/inverted-bounds", "direct-fill", "zero-padded-bounds"}
+	c.Required = []string{"literal/within", "literal/outside", "literal/form=n", "literal/form=a..b", "literal/form=a..", "literal/form=..b", "asciivar/fill-accepted", "asciivar/fill-refused", "asciivar/inverted-bounds", "direct-fill", "zero-padded-bounds", "same-name-other-bounds"}
 }
 
 func replayC15(c *ctx, raw json.RawMessage) {
